@@ -175,6 +175,13 @@ class DropletTrack:
             return None
         else:
             d0 = self.first
+            for droplet in self.droplets:
+                same_class = droplet.__class__ is d0.__class__
+                if not same_class or droplet.data.dtype != d0.data.dtype:
+                    raise TypeError(
+                        "Track data cannot be stored contiguously if the droplets "
+                        "differ in their class or data layout"
+                    )
             dtype = [("time", "f8")] + d0.data.dtype.descr
             result = np.empty(len(self), dtype=dtype)
             for i in range(len(self)):
